@@ -345,10 +345,44 @@ pub fn get_unix_timestamp_ms() -> u64 {
 /// This timestamp is ensured to be accurate taking into account the
 /// resolution lost when converting the timestamp.
 pub fn get_datacake_timestamp() -> Duration {
+    #[cfg(feature = "verif-hooks")]
+    if let Some(duration) = verif::wall_clock_override() {
+        let (seconds, fractional) = duration_to_parts(duration);
+        return parts_as_duration(seconds, fractional);
+    }
+
     let duration = SystemTime::now().duration_since(UNIX_EPOCH).unwrap();
 
     let (seconds, fractional) = duration_to_parts(duration - DATACAKE_EPOCH);
     parts_as_duration(seconds, fractional)
+}
+
+#[cfg(feature = "verif-hooks")]
+/// Verification hooks: a process-wide override of the wall clock read by
+/// [get_datacake_timestamp] (time since the [DATACAKE_EPOCH]).
+pub mod verif {
+    use std::sync::atomic::{AtomicU64, Ordering};
+    use std::time::Duration;
+
+    const UNSET: u64 = u64::MAX;
+    static WALL_CLOCK_MICROS: AtomicU64 = AtomicU64::new(UNSET);
+
+    /// Makes every following wall clock read return `since_datacake_epoch`.
+    pub fn set_wall_clock(since_datacake_epoch: Duration) {
+        WALL_CLOCK_MICROS.store(since_datacake_epoch.as_micros() as u64, Ordering::SeqCst);
+    }
+
+    /// Returns to the real wall clock.
+    pub fn clear_wall_clock() {
+        WALL_CLOCK_MICROS.store(UNSET, Ordering::SeqCst);
+    }
+
+    pub(crate) fn wall_clock_override() -> Option<Duration> {
+        match WALL_CLOCK_MICROS.load(Ordering::SeqCst) {
+            UNSET => None,
+            micros => Some(Duration::from_micros(micros)),
+        }
+    }
 }
 
 #[cfg(test)]
